@@ -3,11 +3,18 @@
   exactly the entries of that type, in order (`Model/Compact.lean`).
 -/
 import OrasModel.Proofs.Compact
+import OrasModel.Gen.Facts
 namespace Oras.Props.C15
 open Oras Oras.Compact
 
 theorem c15_filter_referrers_is_filter {α : Type} [DecidableEq α] (typeOf : α → String) (artifactType : String) (refs : List α) :
     compact (fun r => typeOf r == artifactType) atCursor refs = refs.filter (fun r => typeOf r == artifactType) :=
   compact_eq_filter _ refs
+
+/-- The error-response parser reads the body through one size-limited reader of 8 KiB and
+    nothing else. -/
+theorem c15_error_body_source_facts :
+    Gen.errBodyReaders = ["io.LimitReader(resp.Body, maxErrorBytes)"] ∧ Gen.errBodyLimit = "8 * 1024" := by
+  decide
 
 end Oras.Props.C15
